@@ -1,10 +1,22 @@
 """Generator of lean/Yaql/Gen/Registry.lean: EVERY FunctionDefinition registered in the context chain
 of yaql.create_context() - name, kinds, no_kwargs, and every parameter with key, python name, alias,
-whether the alias was given explicitly, position, default-present, smart-type class, hidden, lazy."""
+whether the alias was given explicitly, position, default-present, smart-type class, hidden, lazy.
+
+Generator of lean/Yaql/Gen/RegistryConv.lean: the names and aliases the same definitions have in contexts of
+EVERY naming convention (CamelCaseConvention, PythonConvention, no convention), read from contexts created in
+fresh interpreters in several creation orders (camel first, python first, convention-less first, with
+re-creation), next to what the SOURCE TEXT of the decorators declares (`@specs.name`, `alias=`,
+`register_function(f, name=..)`, read with `ast`, never from objects the registration code may have touched)."""
+import ast
+import json
+import os
+import subprocess
+import sys
+
 import common  # noqa: F401
 import pyfacts
 import yaql
-from yaql.language import specs, yaqltypes
+from yaql.language import contexts, conventions, specs, yaqltypes
 
 
 def all_definitions(root=None):
@@ -26,14 +38,175 @@ def all_definitions(root=None):
     return out
 
 
+# ---- what the source text declares ------------------------------------------------------------------------
+
+_SRC = {}
+
+
+def _source(filename):
+    """-> ({first line of a decorated def -> FunctionDef}, {function identifier -> names given to register_function})"""
+    if filename not in _SRC:
+        tree = ast.parse(open(filename).read())
+        idx, reg = {}, {}
+        for node in ast.walk(tree):
+            if isinstance(node, ast.FunctionDef):
+                idx[min([d.lineno for d in node.decorator_list] + [node.lineno])] = node
+            elif isinstance(node, ast.Call) and isinstance(node.func, ast.Attribute) and \
+                    node.func.attr == 'register_function' and node.args and isinstance(node.args[0], ast.Name):
+                for kw in node.keywords:
+                    if kw.arg == 'name' and isinstance(kw.value, ast.Constant):
+                        reg.setdefault(node.args[0].id, set()).add(kw.value.value)
+        _SRC[filename] = (idx, reg)
+    return _SRC[filename]
+
+
+def declared(payload):
+    """what the decorators of `payload` say in the source: dict(pyname, name (of @specs.name, None when absent),
+    dyn (the name is computed), aliases {parameter -> alias}, reg_names (explicit register_function names))"""
+    code = getattr(payload, '__code__', None)
+    if code is None:
+        return None
+    idx, reg = _source(code.co_filename)
+    node = idx.get(code.co_firstlineno)
+    if node is None or node.name != payload.__name__:
+        return None
+    name, dyn, aliases = None, False, {}
+    for d in node.decorator_list:
+        if not isinstance(d, ast.Call):
+            continue
+        f = d.func
+        fname = f.attr if isinstance(f, ast.Attribute) else getattr(f, 'id', None)
+        if fname == 'name':
+            if d.args and isinstance(d.args[0], ast.Constant):
+                name = d.args[0].value
+            else:
+                dyn = True
+        elif fname in ('parameter', 'inject', '_parameter') and d.args and isinstance(d.args[0], ast.Constant):
+            al = d.args[3] if len(d.args) >= 4 else None
+            for kw in d.keywords:
+                if kw.arg == 'alias':
+                    al = kw.value
+            if al is not None:
+                if not isinstance(al, ast.Constant):
+                    return None
+                if al.value is not None:
+                    aliases[d.args[0].value] = al.value
+    return dict(pyname=node.name, name=name, dyn=dyn, aliases=aliases, reg_names=sorted(reg.get(node.name, ())))
+
+
+def declared_alias(fd, p):
+    """the alias the decorator of `fd.payload` gives to parameter `p` in the source text (None = none given)"""
+    d = declared(fd.payload)
+    if d is None:           # no source: fall back to the decorator-level definition
+        orig = getattr(fd.payload, '__yaql_function__', None)
+        for q in (orig.parameters.values() if orig is not None else ()):
+            if q.name == p.name:
+                return q.alias
+        return None
+    return d['aliases'].get(p.name)
+
+
 def explicit_alias(fd, p):
-    orig = getattr(fd.payload, '__yaql_function__', None)
-    if orig is None:
-        return False
-    for q in orig.parameters.values():
-        if q.name == p.name:
-            return q.alias is not None
-    return False
+    return declared_alias(fd, p) is not None
+
+
+# ---- the naming rule, transcribed from the documentation of the conventions ------------------------------------
+
+def _is_word(c):
+    return c == '_' or c.isalnum()
+
+
+def to_camel(n):
+    """snake_case -> camelCase: an underscore that is not the first character and is followed by a word character
+    disappears and that character is upper-cased (left to right, non-overlapping)"""
+    out, i = [], 0
+    while i < len(n):
+        if n[i] == '_' and i > 0 and i + 1 < len(n) and _is_word(n[i + 1]):
+            out.append(n[i + 1].upper())
+            i += 2
+        else:
+            out.append(n[i])
+            i += 1
+    return ''.join(out)
+
+
+def promised_kw(conv, decl_alias, pyname):
+    """the keyword name a context with convention `conv` ('camel' | 'python' | 'none') promises for a parameter"""
+    if decl_alias:
+        return decl_alias
+    if conv == 'none' or not pyname:
+        return pyname
+    n = pyname.rstrip('_')
+    return (to_camel(n) if conv == 'camel' else n) or pyname
+
+
+def promised_name(conv, reg_as, decl_name, pyname):
+    """the name a registration gets; names like `#operator_x` / `#property#x_y` keep their `#..#` prefix"""
+    if reg_as is not None:
+        return reg_as
+    n = decl_name if decl_name is not None else pyname
+    if conv == 'none':
+        return n if decl_name is not None else n.rstrip('_')
+    n = n.rstrip('_')
+    tr = to_camel if conv == 'camel' else (lambda x: x)
+    if n and not n[0].isalpha():
+        j = n.find(n[0], 1)
+        return n if j <= 1 else n[:j + 1] + tr(n[j + 1:])
+    return tr(n)
+
+
+# ---- contexts of every convention ---------------------------------------------------------------------------
+
+CONVS = ('camel', 'python', 'none')
+
+
+def make_context(conv):
+    if conv == 'camel':
+        return yaql.create_context()                 # the default: CamelCaseConvention
+    if conv == 'python':
+        return yaql.create_context(convention=conventions.PythonConvention())
+    return yaql.create_context(context=contexts.Context())      # a root without a convention
+
+
+def dump_contexts(order):
+    """creates one context per entry of `order` (in this order, all alive together) and describes every definition"""
+    ctxs = [make_context(c) for c in order]
+    out = []
+    for conv, ctx in zip(order, ctxs):
+        defs = []
+        for _, name, fd in all_definitions(ctx):
+            d = declared(fd.payload)
+            orig = getattr(fd.payload, '__yaql_function__', None)
+            decl_name = d['name'] if d is not None and not d['dyn'] else (orig.name if orig is not None else None)
+            reg_as = name if d is not None and name in d['reg_names'] else None
+            defs.append(dict(reg=name, py=fd.payload.__name__, decl=decl_name, reg_as=reg_as,
+                             params=[dict(key=k, name=p.name, decl=declared_alias(fd, p), alias=p.alias or None,
+                                          hidden=isinstance(p.value_type, yaqltypes.HiddenParameterType))
+                                     for k, p in fd.parameters.items()]))
+        out.append(dict(conv=conv, has_convention=ctx.convention is not None, defs=defs))
+    return out
+
+
+SCENARIOS = (('camel', 'python', 'none', 'camel', 'python'),
+             ('python', 'camel', 'none', 'python'),
+             ('none', 'camel', 'python', 'none'))
+
+
+def dump_scenarios(scenarios=SCENARIOS):
+    """each scenario in an interpreter of its own (so that `first` really is first)"""
+    procs = []
+    env = dict(os.environ, PYTHONPATH=os.pathsep.join(
+        [os.path.dirname(os.path.dirname(os.path.abspath(__file__)))] + sys.path))
+    for sc in scenarios:
+        procs.append(subprocess.Popen([sys.executable, '-W', 'ignore', os.path.abspath(__file__), ','.join(sc)],
+                                      stdout=subprocess.PIPE, stderr=subprocess.PIPE, env=env, cwd='/tmp'))
+    out = []
+    for sc, p in zip(scenarios, procs):
+        o, e = p.communicate(timeout=120)
+        if p.returncode != 0:
+            raise RuntimeError('registry dump %r failed: %s' % (sc, e.decode()[-400:]))
+        out.append((sc, json.loads(o.decode())))
+    return out
 
 
 def lchars(s):
@@ -60,6 +233,42 @@ def row(name, fd):
         'true' if fd.no_kwargs else 'false', ',\n      '.join(ps))
 
 
+def _opt(s):
+    return 'none' if s is None else 'some ' + lchars(s)
+
+
+@pyfacts.generator('RegistryConv')
+def gen_registry_conv():
+    rows, seen, per_ctx, bad = [], set(), [], []
+    for sc, ctxs in dump_scenarios():
+        for i, c in enumerate(ctxs):
+            per_ctx.append('%s[%d]=%s:%d' % ('>'.join(x[0] for x in sc), i, c['conv'], len(c['defs'])))
+            for d in c['defs']:
+                key = json.dumps([c['conv'], d], sort_keys=True)
+                # the same rule, transcribed in Python: a violating row is named in the evidence
+                if d['reg'] != promised_name(c['conv'], d['reg_as'], d['decl'], d['py']) or any(
+                        (p['alias'] or p['name']) != promised_kw(c['conv'], p['decl'], p['name']) for p in d['params']):
+                    if len(bad) < 5:
+                        bad.append('%s (%s context #%d of %s)' % (d['reg'], c['conv'], i, '>'.join(sc)))
+                if key in seen:
+                    continue
+                seen.add(key)
+                ps = ['{ name := %s, declAlias := %s, seenAlias := %s, hidden := %s, star := %s }' % (
+                    lchars(p['name']), _opt(p['decl']), _opt(p['alias']), 'true' if p['hidden'] else 'false',
+                    'true' if p['key'] in ('*', '**') else 'false') for p in d['params']]
+                rows.append('  { conv := %s, pyName := %s, declName := %s, regAs := %s, regName := %s,\n'
+                            '    params := [\n      %s] }' % (
+                                'none' if c['conv'] == 'none' else 'some .' + c['conv'], lchars(d['py']), _opt(d['decl']),
+                                _opt(d['reg_as']), lchars(d['reg']), ',\n      '.join(ps)))
+    body = ('import Yaql.Model.Naming\n'
+            '/-! the definitions of `yaql.create_context()` as found in contexts of every naming convention, created in\n'
+            'several orders in fresh interpreters (%d distinct rows) -/\n'
+            'namespace Yaql.Gen.RegistryConv\nopen Yaql.Naming\n\n'
+            'def convRows : List CRow := [\n%s\n]\n\nend Yaql.Gen.RegistryConv\n') % (len(rows), ',\n'.join(rows))
+    changed = pyfacts.emit('RegistryConv', body)
+    return dict(rows=len(rows), contexts=per_ctx, rows_off_the_rule=bad, rewritten=changed)
+
+
 @pyfacts.generator('Registry')
 def gen_registry():
     defs = all_definitions()
@@ -71,3 +280,7 @@ def gen_registry():
     changed = pyfacts.emit('Registry', body)
     return dict(definitions=len(defs), names=len({n for _, n, _ in defs}),
                 parameters=sum(len(fd.parameters) for _, _, fd in defs), rewritten=changed)
+
+
+if __name__ == '__main__':
+    print(json.dumps(dump_contexts(sys.argv[1].split(','))))
